@@ -25,7 +25,7 @@ PosOf(kd) == IF WithPos /\ Positional(kd[1], kd[2]) THEN {"orig", "first", "last
 
 (* groups of faults that cannot be combined in one message by the byte-level builder (they would
    touch the same octets), or whose combination has no defined reading *)
-ValueMutating(k) == k \in {"len", "zlen", "val", "valm", "segtype", "segzero", "segover", "nh",
+ValueMutating(k) == k \in {"len", "zlen", "val", "valm", "valb", "valbs", "segtype", "segzero", "segover", "nh",
                            "pfxlen", "ptrunc"}
 Framing(a) == a \in {"ATTR", "TOTLEN"}
 Compatible(x, y) ==
@@ -112,24 +112,21 @@ CatalogueWellFormed ==
      /\ <<r.a, r.k>> \in Kinds
 ASSUME CatalogueWellFormed
 
-(* faults for which the implementation's OWN class is weaker than the catalogue's obligation are
-   known findings by themselves (zero-length lists, LOCAL_PREF on iBGP); the NLRI field not being
-   reached after an overrun is another.  Outside them: *)
+(* a fault for which the implementation's OWN class is weaker than the catalogue's obligation is a
+   known finding by itself (LOCAL_PREF on iBGP).  Outside it: *)
 Under(f) == IF taw THEN Impl(f, pt).cls < Entry(f, pt).lo
             ELSE Entry(f, pt).lo # None /\ Impl(f, pt).cls = None
-NoUnder == /\ \A f \in FS : ~Under(f)
-           /\ ~(StopsBeforeNlri(FS) /\ \E f \in FS : f.a = "NLRI")
-           /\ DecSeen(FS, pt) = StageOf(FS, pt, "dec")
+NoUnder == \A f \in FS : ~Under(f)
 
-(* "strongest wins" holds for the repaired combination rule ... *)
+(* "strongest wins" holds when the validator also runs after a treat-as-withdraw decode error ... *)
 D_C06_NeverWeaker_Fixed == NoUnder => MechClass(FS, pt, taw, TRUE) >= Lo(FS, pt, taw)
 (* ... and for the code as it is exactly outside the known-finding predicates *)
 D_C06_NeverWeaker_KF == MechClass(FS, pt, taw, FALSE) >= Lo(Unmasked(FS, pt, taw), pt, taw)
 D_C06_MaskedIsTheOnlyGap ==
   (NoUnder /\ MechClass(FS, pt, taw, FALSE) < Lo(FS, pt, taw)) => Masked(FS, pt, taw)
-(* no reset the RFCs do not allow, except the AS4_AGGREGATOR one *)
+(* no reset the RFCs do not allow *)
 D_C06_ResetOnlyIfCalledFor ==
-  \A fx \in BOOLEAN : (MechClass(FS, pt, taw, fx) = ResetC /\ ~KF_As4Agg(FS)) => ResetJustified(FS, pt, taw)
+  \A fx \in BOOLEAN : MechClass(FS, pt, taw, fx) = ResetC => ResetJustified(FS, pt, taw)
 D_C06_WellFormedNotPenalised ==
-  \A fx \in BOOLEAN : (Real(FS, pt) = {} /\ ~KF_As4Agg(FS)) => MechClass(FS, pt, taw, fx) = None
+  \A fx \in BOOLEAN : Real(FS, pt) = {} => MechClass(FS, pt, taw, fx) = None
 =============================================================================
